@@ -563,6 +563,9 @@ def _norm1(e, ctx):
             return ('un', 'not', ('cmp', 'is', a, b))
         if op == 'is' and (a[0] == 'enum' or b[0] == 'enum'):
             return ('cmp', '==', a, b)                  # enum members are singletons: identity is equality
+        # two constants
+        if op in ('==', '!=') and a[0] == 'const' and b[0] == 'const' and type(a[1]) is type(b[1]):
+            return ('const', (a[1] == b[1]) if op == '==' else (a[1] != b[1]))
         # a comparison with a generation-time choice is that choice of comparisons
         if op in ('==', '!=', '<', '<=', '>', '>=', 'in', 'not in') and b[0] == 'phi' and a[0] != 'phi':
             return ('phi', b[1], ('cmp', op, a, b[2]), ('cmp', op, a, b[3]))
@@ -746,6 +749,8 @@ def _norm1(e, ctx):
     if k == 'ifexp':
         return ('phi', e[1], e[2], e[3])
     if k == 'phi':
+        if e[1][0] == 'const' and isinstance(e[1][1], bool):
+            return e[2] if e[1][1] else e[3]
         if e[1][0] == 'un' and e[1][1] == 'not':
             return ('phi', e[1][2], e[3], e[2])
         if e[2] == ('const', False) and e[1] == ('un', 'not', e[3]):
